@@ -333,6 +333,64 @@ _STR_LIT = re.compile(r'"(?:[^"]|"")*"')
 _STR_OPS = re.compile(r'\((?:str\.|re\.|seq\.|int\.to\.str|_ char|_ re)')
 
 
+def _abstract_concat(body):
+    """Rewrite every n-ary (str.++ a b c ...) into nested applications of an uninterpreted binary strcat!."""
+    out = []
+    i = 0
+    n = len(body)
+
+    def parse(i):
+        # returns (text of one s-expression starting at i, index after it)
+        while i < n and body[i].isspace():
+            i += 1
+        if body[i] != '(':
+            j = i
+            while j < n and not body[j].isspace() and body[j] not in '()':
+                j += 1
+            return body[i:j], j
+        # a list
+        j = i + 1
+        items = []
+        while True:
+            while j < n and body[j].isspace():
+                j += 1
+            if body[j] == ')':
+                j += 1
+                break
+            t, j = parse(j)
+            items.append(t)
+        if items and items[0] == 'str.++':
+            args = items[1:]
+            if not args:
+                raise ValueError('empty concat')
+            cur = args[0]
+            for a in args[1:]:
+                cur = '(strcat! %s %s)' % (cur, a)
+            return cur, j
+        return '(' + ' '.join(items) + ')', j
+
+    try:
+        while i < n:
+            while i < n and body[i].isspace():
+                out.append(body[i])
+                i += 1
+            if i >= n:
+                break
+            if body[i] == ';':
+                j = body.find('\n', i)
+                j = n if j < 0 else j
+                out.append(body[i:j])
+                i = j
+                continue
+            t, i = parse(i)
+            out.append(t + '\n')
+    except (ValueError, IndexError):
+        return None
+    res = ''.join(out)
+    marker = '(set-info :status unknown)'
+    return res.replace(marker, marker + '\n(declare-fun strcat! (String String) String)', 1)
+
+
 def _strabs(text):
     """SMT-LIB text with the String sort abstracted to an uninterpreted sort (None if the query applies string
     operations other than equality / literals / uninterpreted functions)."""
@@ -340,6 +398,10 @@ def _strabs(text):
         return None
     lits = sorted(set(_STR_LIT.findall(text)))
     body = _STR_LIT.sub(lambda m: 'strlit!%d' % lits.index(m.group(0)), text)
+    if '(str.++' in body:
+        body = _abstract_concat(body)       # concatenation as an uninterpreted binary function (weaker: sound)
+        if body is None:
+            return None
     if _STR_OPS.search(body) or 'RegLan' in body or 'Seq ' in body:
         return None
     body = re.sub(r'\bString\b', 'StrAtom', body)
